@@ -16,11 +16,16 @@ Two hypotheses appear where they are needed and nowhere else:
   a key).  Without it the holder could simply send the quarantined coins away.
 * `holderNotNamed` (only for the equality): nobody sends coins to the holder directly.
 
+Section 8 judges "who may be paid / credited" against the HISTORY of the receiver's successful
+messages (`Hist`, rebuilt from the messages alone) instead of the store's own accepted lists and
+auto-response entries: the store always agrees with that history, so a record is paid exactly
+when every sender on it is currently accepted, and a one-time accept never becomes auto-accept.
+
 Section 7 goes beyond the anchored files: genesis export followed by import.  There the clause
 "never lost" is FALSE of the code; `regenesis_can_lose_funds_observation` is the witness and
 `regenesis_preserves_partial_observation` is what does hold.  Both belong to C18, not to C07; see observations/.
 -/
-import PvProofs.Lemmas.QuarRun
+import PvProofs.Lemmas.QuarHist
 
 namespace PvProofs.C07
 open PvModel PvModel.Quar PvProofs.QuarL
@@ -477,6 +482,137 @@ theorem regenesis_preserves_partial_observation {s s' : State} (inv : StoreInv s
       exact inv.nonneg e he
   · cases h
 
+/-! ### 8. payment and direct delivery judged by the HISTORY of the receiver's messages
+
+The accepted / unaccepted lists of a record, the auto-response entries and the opt-in flags are
+the store's own bookkeeping.  `Hist` (PvModel/QuarSpec.lean) rebuilds the receiver's choices from
+the successful messages alone: an accept marks the named senders accepted on every record of the
+receiver they are on, a decline takes every named sender's acceptance back, a new record starts
+with the senders on auto-accept at that moment, and auto-responses change only by
+`UpdateAutoResponses` and by PERMANENT accepts / declines.  The theorems below say that the store
+always agrees with that history (`HistOK`), hence: a record is paid exactly when every sender on
+it is currently accepted (accepted and not declined since), and funds arrive directly only from
+senders whose auto-response — as set by the messages seen so far — is accept. -/
+
+/-- a fresh chain agrees with the empty history -/
+theorem history_init (h : Addr) (rd : List Denom) (xf : List Addr) (b : Ledger) :
+    HistOK Hist.empty (init h rd xf b) :=
+  ⟨rfl, rfl, fun _ _ hg => by simp [init] at hg, fun _ _ => rfl⟩
+
+/-- **One successful operation keeps the store in agreement with the history**: opt-ins and
+auto-responses are exactly what the messages so far set, and the accepted list of every stored
+record is exactly the set of senders accepted and not declined since. -/
+theorem history_step {h : Hist} {s s' : State} {op : Op} {rel : Coins} (inv : StoreInv s) (H : HistOK h s)
+    (he : exec s op = .ok (s', rel)) : HistOK (h.step op (s'.recs.map (·.1))) s' :=
+  exec_histOK inv H he
+
+/-- … hence after every operation list -/
+theorem history_agrees (s0 : State) (h0 : Hist) (ops : List Op) (inv : StoreInv s0) (H0 : HistOK h0 s0) :
+    HistOK (histRun h0 s0 ops) (run s0 ops) :=
+  histRun_ok ops h0 s0 inv H0
+
+/-- … in particular from a fresh chain -/
+theorem history_agrees_from_genesis (h : Addr) (rd : List Denom) (xf : List Addr) (b : Ledger) (ops : List Op) :
+    HistOK (histRun Hist.empty (init h rd xf b) ops) (run (init h rd xf b) ops) :=
+  history_agrees _ _ ops (init_inv h rd xf b) (history_init h rd xf b)
+
+/-- **A record is paid exactly when every sender on it is currently accepted.** A successful
+`accept to froms` removes (= pays, `accept_pays_completed_records`) the record `(to, k)` if and
+only if every sender of the record is named in `froms` or is accepted according to the history
+(accepted earlier and not declined since). -/
+theorem paid_iff_every_sender_accepted {h : Hist} {s s' : State} {to : Addr} {froms : List Addr} {perm : Bool}
+    {rel : Coins} (inv : StoreInv s) (H : HistOK h s) (he : exec s (.accept to froms perm) = .ok (s', rel))
+    {k : Suffix} {r : Record} (hg : kvGet s.recs (to, k) = some r) :
+    kvGet s'.recs (to, k) = none ↔ ∀ a ∈ k, a ∈ froms ∨ a ∈ h.accepted (to, k) := by
+  obtain ⟨ga, hga, hag, hd⟩ := H.recs (to, k) r hg
+  have hacc : h.accepted (to, k) = ga := by simp [Hist.accepted, hga]
+  have hfate := accept_record_fate inv he (to, k)
+  rw [hg] at hfate
+  simp only [true_and] at hfate
+  have hcomp : completes froms r = true ↔ ∀ a ∈ k, a ∈ froms ∨ a ∈ h.accepted (to, k) := by
+    unfold completes
+    rw [List.all_eq_true, hacc]
+    constructor
+    · intro hall a ha
+      rcases (mem_key_iff inv hg a).mp ha with h1 | h1
+      · exact Or.inl (by simpa using hall a h1)
+      · exact Or.inr ((hag a).mp h1)
+    · intro hall a ha
+      rcases hall a ((mem_key_iff inv hg a).mpr (Or.inl ha)) with h1 | h1
+      · simpa using h1
+      · exact absurd ((hag a).mpr h1) (hd a ha)
+  rw [← hcomp]
+  by_cases hc : completes froms r = true
+  · simp only [hc, if_true] at hfate
+    exact ⟨fun _ => hc, fun _ => hfate⟩
+  · simp only [hc] at hfate
+    constructor
+    · intro hn; rw [hn] at hfate; simp at hfate
+    · intro h1; exact absurd h1 hc
+
+/-- the direction the property names: **paid only when EVERY sender is currently accepted** -/
+theorem paid_only_when_every_sender_accepted {h : Hist} {s s' : State} {to : Addr} {froms : List Addr} {perm : Bool}
+    {rel : Coins} (inv : StoreInv s) (H : HistOK h s) (he : exec s (.accept to froms perm) = .ok (s', rel))
+    {k : Suffix} {r : Record} (hg : kvGet s.recs (to, k) = some r) (hpaid : kvGet s'.recs (to, k) = none) :
+    ∀ a ∈ k, a ∈ froms ∨ a ∈ h.accepted (to, k) :=
+  (paid_iff_every_sender_accepted inv H he hg).mp hpaid
+
+/-- **A decline takes an earlier acceptance back**: after a decline naming `a`, the history does
+not have `a` as accepted on any record of that receiver it knew (so by `paid_iff_every_sender_accepted`
+the record is not paid until `a` is accepted again) — whether or not the record was already declined. -/
+theorem decline_revokes_acceptance {h : Hist} {to : Addr} {froms : List Addr} {perm : Bool}
+    {keys : List (Addr × Suffix)} {k : Suffix} {ga : List Addr} {a : Addr}
+    (hk : kvGet h.acc (to, k) = some ga) (ha : a ∈ froms) :
+    a ∉ (h.step (.decline to froms perm) keys).accepted (to, k) := by
+  unfold Hist.accepted Hist.step
+  simp only
+  rw [kvGet_map_keys (h.accAfter (.decline to froms perm))]
+  split
+  · simp [Hist.accAfter, kvGet_stepAccExisting, hk, accUpd, ha]
+  · simp
+
+/-- **What an accept pays, read off the history**: the released coins are the coins of the
+records of `to` all of whose senders are named or currently accepted according to the history. -/
+theorem accept_pays_per_history {h : Hist} {s s' : State} {to : Addr} {froms : List Addr} {perm : Bool} {rel : Coins}
+    (inv : StoreInv s) (H : HistOK h s) (he : exec s (.accept to froms perm) = .ok (s', rel)) :
+    (∀ d, Coins.amountOf rel d = expReleased (h.view s).recs to froms d) ∧
+    (∀ a d, Ledger.bal s'.bank a d = Ledger.bal s.bank a d
+        + (if to = a then expReleased (h.view s).recs to froms d else 0)
+        - (if s.holder = a then expReleased (h.view s).recs to froms d else 0)) := by
+  obtain ⟨h1, h2, _⟩ := accept_pays_completed_records inv he
+  simp only [expReleased_view inv H]
+  exact ⟨h1, h2⟩
+
+/-- **Delivery of every send, read off the history**: every account's balance changes by exactly
+`expDelta` evaluated with the receiver's opt-in and auto-responses AS SET BY THE MESSAGES SO FAR:
+a transfer reaches an opted-in receiver directly only if the history has the sender on
+auto-accept; otherwise it goes to the holder and onto the record. -/
+theorem send_delivery_per_history {h : Hist} {s s' : State} {op : Op} {rel : Coins} (inv : StoreInv s)
+    (H : HistOK h s) (he : exec s op = .ok (s', rel)) (hop : op.xfers ≠ []) :
+    (∀ a d, Ledger.bal s'.bank a d = Ledger.bal s.bank a d + expDelta (h.view s) op.xfers a d) ∧
+    (∀ d, outstanding s' d = outstanding s d + expQuarantined (h.view s) op.xfers d) ∧
+    (∀ to f d, Coins.amountOf (coinsAt s' to [f]) d
+        = Coins.amountOf (coinsAt s to [f]) d + expRecord (h.view s) op.xfers to f d) := by
+  obtain ⟨h1, h2, h3, _⟩ := send_delivery inv he hop
+  have R := view_sameRest H
+  refine ⟨fun a d => ?_, fun d => ?_, fun to f d => ?_⟩
+  · rw [expDelta_congr R]; exact h1 a d
+  · rw [expQuarantined_congr R]; exact h2 d
+  · rw [expRecord_congr R]; exact h3 to f d
+
+/-- **A one-time accept or decline changes no setting**: only `UpdateAutoResponses` and the
+PERMANENT forms change auto-responses, only opt-in/out change the opt-in flag
+(`history_step` for every operation; this is the instance for the non-permanent forms). -/
+theorem one_time_response_keeps_settings {h : Hist} {s s' : State} {to : Addr} {froms : List Addr} {rel : Coins}
+    (inv : StoreInv s) (H : HistOK h s)
+    (he : exec s (.accept to froms false) = .ok (s', rel) ∨ exec s (.decline to froms false) = .ok (s', rel)) :
+    s'.auto = s.auto ∧ s'.optin = s.optin := by
+  rcases he with he | he
+  · have H' := history_step inv H he
+    exact ⟨H'.auto.symm.trans H.auto, H'.optin.symm.trans H.optin⟩
+  · have H' := history_step inv H he
+    exact ⟨H'.auto.symm.trans H.auto, H'.optin.symm.trans H.optin⟩
+
 /-! ### non-vacuity: a concrete history meets every hypothesis used above -/
 
 namespace Demo
@@ -543,6 +679,28 @@ theorem _root_.PvProofs.C07.regenesis_can_lose_funds_observation :
   · intro s' h
     rw [regenesis_ok_eq h]
     decide
+
+-- hypotheses of section 8: the history of `ops` from the fresh chain `s0` agrees with the store …
+example : HistOK (histRun Hist.empty s0 ops) (run s0 ops) := history_agrees_from_genesis _ _ _ _ ops
+-- … and is not trivial: A accepted on the joint record, B permanently declined
+example : (histRun Hist.empty s0 ops).accepted ("C", ["A", "B"]) = ["A"] := by decide
+example : (histRun Hist.empty s0 ops).auto = [(("C", "B"), AutoResp.decline)] := by decide
+
+/-- accept A, decline B (marks the record declined), decline A (takes A's acceptance back on the
+already declined record), accept B: the joint record must NOT be paid -/
+def opsRevoke : List Op :=
+  [.optIn "C", .qadd "C" ["A", "B"] [("aaa", 3)] "B", .accept "C" ["A"] false, .decline "C" ["B"] false,
+   .decline "C" ["A"] false, .accept "C" ["B"] false]
+example : (run s0 opsRevoke).recs.map (fun e => (e.1, e.2.unacc, e.2.acc)) = [(("C", ["A", "B"]), ["A"], ["B"])] := by decide
+example : Ledger.bal (run s0 opsRevoke).bank "C" "aaa" = 0 := by decide
+example : (histRun Hist.empty s0 opsRevoke).accepted ("C", ["A", "B"]) = ["B"] := by decide
+
+/-- permanent decline of A, A sends (held), one-time accept of A (paid), A sends again: held again -/
+def opsOneTime : List Op :=
+  [.optIn "C", .decline "C" ["A"] true, .send "A" "C" [("aaa", 5)], .accept "C" ["A"] false, .send "A" "C" [("aaa", 4)]]
+example : Ledger.bal (run s0 opsOneTime).bank "C" "aaa" = 5 := by decide
+example : Ledger.bal (run s0 opsOneTime).bank "H" "aaa" = 4 := by decide
+example : (run s0 opsOneTime).auto = [(("C", "A"), AutoResp.decline)] := by decide
 
 -- hypotheses of `regenesis_preserves_partial_observation`: before C accepts A nothing is partially accepted
 example : ((exportGenesis s4).map fun g => (g.to, createRecordSuffix g.unacc)).Nodup := by decide
